@@ -34,18 +34,22 @@ def check_filter_table(ctx):
     ft = ctx.fn(repo.func('fit_info', 'FitInfo.filter_table'))
     I = Interp(repo)
     T = SymTable({'MODEL_NAME': symarr('tname', (T_,)), 'P1': symarr('p1', (T_,))}, T_)
-    info = Obj(repo.cls('fit_info', 'FitInfo'), {'model_name': symarr('mname', (R_,))})
+    info = Obj(repo.cls('fit_info', 'FitInfo'), {'model_name': symarr('mname', (R_,)), 'chi2': symarr('chi2', (R_,)), 'av': symarr('av', (R_,)), 'sc': symarr('sc', (R_,)),
+                                                 'model_id': symarr('model_id', (R_,))})
     out = I.call(ft, [T], selfv=info)
     where_ = loc(ft)
     if not isinstance(out, SymTable):
-        ctx.undecided('PERM-9', 'filter_table result', where_, 'not modelled: %r %s' % (out, I.findings[:1]))
+        if I.findings or (isinstance(out, Unk) and out.definite):
+            compare(ctx, 'PERM-9', 'filter_table result', where_, out if isinstance(out, Unk) else Unk('x'), Poly(), findings=I.findings)
+        else:
+            ctx.undecided('PERM-9', 'filter_table result', where_, 'not modelled: %r' % (out,))
         return
     member = alg.mk_ind('true', mk_fn('isin', P(sym('tname', T_)), B(R_, sym('mname', R_))))
     rank = mk_fn('argsort', B(R_, mk_fn('argsort', B(R_, sym('mname', R_)))))
     new = T_ + "'"
     for c, base in (('MODEL_NAME', sym('tname', T_)), ('P1', sym('p1', T_))):
         ref = mk_fn('at', B(new, mk_fn('compress', L(new), B(T_, base), B(T_, member))), P(rank))
-        compare(ctx, 'PERM-9', 'filter_table column %s' % c, where_, out.cols.get(c), ref, (R_,), vocab={'tname', 'p1', 'mname'}, fns={'isin', 'compress'}, findings=I.findings,
+        compare(ctx, 'PERM-9', 'filter_table column %s' % c, where_, out.cols.get(c), ref, (R_,), vocab={'tname', 'p1', 'mname', 'chi2', 'av', 'sc', 'model_id'}, fns={'isin', 'compress'}, findings=I.findings,
                 detail_ok='col[isin(table names, fit names)][argsort(argsort(fit names))]')
     guards = [a for a in I.assumed if a[4] == 'raise-guard' and 'model_name' in a[2] and 'MODEL_NAME' in a[2] and '==' in a[2]]
     ctx.expect(bool(guards), 'CFG-6', 'filter_table post-check', where_, 'raises unless the returned names equal the fit\'s names in order', 'no raising post-check on the names', 'post-check')
